@@ -22,6 +22,7 @@ class Engine:
         s.mem = Memory(s)
         s.gaddr = {}; s.tls = {}; s.faddr = {}; s.addr2f = {}
         s.regs = [dict() for _ in range(nthreads + 1)]
+        s.overlay = {}
         s.tstate = [dict() for _ in range(nthreads + 1)]
         s.checks = {}           # msg -> [guard, kind]
         s.assumes = []
@@ -65,6 +66,107 @@ class Engine:
         f.rpo = {b: i for i, b in enumerate(order)}
         for i in range(len(f.blocks)):
             if i not in f.rpo: f.rpo[i] = len(f.rpo)
+        s.liveness(f)
+    @staticmethod
+    def _uses(I):
+        out = []
+        def add(v):
+            if v is None: return
+            k = v.kind
+            if k == 'local': out.append(v.name)
+            elif k == 'ccast': add(v.v)
+            elif k == 'cgep':
+                add(v.base)
+                for i in v.idx: add(i)
+            elif k in ('cbin', 'cicmp'): add(v.a); add(v.b)
+            elif k == 'csel': add(v.c); add(v.a); add(v.b)
+            elif k == 'agg':
+                for e in v.elems: add(e)
+        for attr in ('v', 'cond', 'a', 'b', 'c', 'p', 'cmp', 'new', 'e', 'callee', 'n'):
+            x = getattr(I, attr, None)
+            if isinstance(x, V): add(x)
+        for x in getattr(I, 'idx', []) or []:
+            if isinstance(x, V): add(x)
+        for x in getattr(I, 'args', []) or []:
+            if isinstance(x, V): add(x)
+        return out
+    def liveness(s, f):
+        nb = len(f.blocks)
+        succ = [[] for _ in range(nb)]
+        for i, b in enumerate(f.blocks):
+            T = b.ins[-1]
+            if T.op == 'br': out = [T.t] if T.cond is None else [T.t, T.f]
+            elif T.op == 'switch': out = [T.default] + [l for _, l in T.cases]
+            elif T.op == 'invoke': out = [T.normal, T.unwind]
+            else: out = []
+            succ[i] = [f.bidx[l] for l in out]
+        use = [set() for _ in range(nb)]; defs = [set() for _ in range(nb)]; phiuse = [dict() for _ in range(nb)]
+        for i, b in enumerate(f.blocks):
+            for I in b.ins:
+                if I.op == 'phi':
+                    for v, lab in I.inc:
+                        if v.kind == 'local': phiuse[i].setdefault(f.bidx.get(lab, -1), set()).add(v.name)
+                        elif v.kind not in ('int', 'null', 'undef', 'zero', 'global'):
+                            tmp = Ins('x', None, v=v)
+                            for u in s._uses(tmp): phiuse[i].setdefault(f.bidx.get(lab, -1), set()).add(u)
+                else:
+                    for u in s._uses(I):
+                        if u not in defs[i]: use[i].add(u)
+                if I.res is not None: defs[i].add(I.res)
+        livein = [set() for _ in range(nb)]; liveout = [set() for _ in range(nb)]
+        ch = True
+        while ch:
+            ch = False
+            for i in range(nb - 1, -1, -1):
+                lo = set()
+                for j in succ[i]:
+                    lo |= livein[j] - {I.res for I in f.blocks[j].ins if I.op == 'phi'}
+                    lo |= phiuse[j].get(i, set())
+                li = use[i] | (lo - defs[i])
+                # phi results are defined at block entry; their inputs are live-out of predecessors only
+                if lo != liveout[i] or li != livein[i]: liveout[i] = lo; livein[i] = li; ch = True
+        f.liveout = liveout; f.livepos = {}
+    def live_before(s, f, bi, ii):
+        """registers live immediately before instruction ii of block bi"""
+        k = (bi, ii); r = f.livepos.get(k)
+        if r is None:
+            live = set(f.liveout[bi]); ins = f.blocks[bi].ins
+            for j in range(len(ins) - 1, ii - 1, -1):
+                I = ins[j]
+                if I.res is not None: live.discard(I.res)
+                if I.op != 'phi':
+                    for u in s._uses(I): live.add(u)
+            r = f.livepos[k] = frozenset(live)
+        return r
+    def live_keys(s, ctrl):
+        """set of (depth, fname, reg) live in the suspended control tuple"""
+        out = set(); n = len(ctrl)
+        for i, fr in enumerate(ctrl):
+            if fr[0] == 'done': continue
+            f = s.m.funcs[fr[0]]; d = n - i
+            if i == 0: live = s.live_before(f, fr[1], fr[2])
+            else:
+                live = set(s.live_before(f, fr[1], fr[2] + 1)) if fr[2] + 1 < len(f.blocks[fr[1]].ins) else set(f.liveout[fr[1]])
+                I = f.blocks[fr[1]].ins[fr[2]]
+                if I.op == 'invoke': live |= f.liveout[fr[1]]
+            for r in live: out.add((d, fr[0], r))
+        return out
+    def commit_regs(s, t, ctrls):
+        """end of an epoch: merge registers written in this epoch into the base, keeping only those live at a suspended state"""
+        L = set()
+        for c in ctrls: L |= s.live_keys(c)
+        base = s.regs[t]; ov = s.overlay
+        for key, (val, wg) in ov.items():
+            if key not in L: continue
+            old = base.get(key)
+            base[key] = val if (old is None or wg is True) else ite(wg, val, old, s.wshape(val))
+        for key in [k for k in base if k not in L]: del base[key]
+        s.overlay = {}
+    def wshape(s, v):
+        if isinstance(v, tuple): return tuple(s.wshape(x) for x in v)
+        if isinstance(v, int): return 64
+        if isinstance(v, GV): return v.w
+        return v.size() if not z3.is_bool(v) else 1
     def layout_globals(s):
         m = s.m
         for i, n in enumerate(m.funcs):
@@ -195,14 +297,21 @@ class Engine:
     # ------------------------------------------------------------------ registers
     def val(s, f, v):
         if v.kind == 'local':
-            try: return s.regs[s.cur][(s.depth, f.name, v.name)]
+            key = (s.depth, f.name, v.name)
+            o = s.overlay.get(key)
+            if o is not None:
+                if o[1] is True: return o[0]
+                b = s.regs[s.cur].get(key)
+                if b is None: return o[0]
+                return ite(o[1], o[0], b, s.wshape(o[0]))
+            try: return s.regs[s.cur][key]
             except KeyError: raise EngineLimit('read of unset register %%%s in %s' % (v.name, f.name))
         return s.const(v)
     def setreg(s, f, name_, val, guard, w, depth=None):
-        key = (s.depth if depth is None else depth, f.name, name_); R = s.regs[s.cur]
-        old = R.get(key)
-        if old is None or guard is True: R[key] = val
-        else: R[key] = ite(guard, val, old, w)
+        key = (s.depth if depth is None else depth, f.name, name_)
+        o = s.overlay.get(key)
+        if o is None or guard is True: s.overlay[key] = (val, guard)
+        else: s.overlay[key] = (ite(guard, val, o[0], w), gor(o[1], guard))
     def nondet(s, w, label):
         key = (label, s.cur, s.stepno)
         k = s.nd_count.get(key, 0); s.nd_count[key] = k + 1
@@ -282,8 +391,12 @@ class Engine:
             g = pend.pop((ctrl, vis_ok), None)
             if g is None: continue
             nv = visits.get(ctrl, 0) + 1; visits[ctrl] = nv
-            if nv > s.opts.get('loopchk', 6) and s.concrete is None and not isinstance(g, bool):
-                if not s.feasible(g): continue
+            if nv > s.opts.get('max_visits', 16) and s.concrete is None and not isinstance(g, bool):
+                if s.opts.get('feas'):
+                    if not s.feasible(g): continue
+                else:
+                    # loop bound ("unwinding assertion"): must be unreachable, decided by the engine-limit query
+                    s.add_check(g, 'ENGINE-LIMIT loop bound %d reached at %s' % (nv - 1, ctrl[0][:3]), 'limit'); continue
             while True:
                 if ctrl[0][0] == 'done':
                     out[ctrl] = gor(out.get(ctrl, False), g); break
@@ -466,6 +579,11 @@ class Engine:
             cf = s.m.funcs.get(nm)
             if cf is not None and cf.defined and nm not in OVERRIDE:
                 if cf.va: raise Unsupported('varargs callee ' + nm)
+                if s.concrete is None and not isinstance(g2, bool):
+                    nrec = sum(1 for fr_ in ctrl if fr_[0] == nm)
+                    if nrec >= s.opts.get('max_rec', 3):
+                        # recursion bound ("unwinding assertion"): must be unreachable, decided by the engine-limit query
+                        s.add_check(g2, 'ENGINE-LIMIT recursion bound %d reached for %s' % (nrec, nm[:80]), 'limit'); continue
                 args = [s.val(f, a) if a is not None else 0 for a in I.args]
                 d = len(ctrl) + 1
                 for (pty, pn, pa), a, av in zip(cf.params, args, I.args):
@@ -473,8 +591,7 @@ class Engine:
                         sz = s.L.size(pa['byval']); tmp = s.mem.alloc(sz, 'stack', 'byval:' + nm[:40], tid=t)
                         if not isinstance(a, int): raise Unsupported('byval with symbolic pointer')
                         s.mem.copy(tmp, a, sz, True); a = tmp
-                    key = (d, cf.name, pn); R = s.regs[t]; old = R.get(key)
-                    R[key] = a if (old is None or g2 is True) else ite(g2, a, old, s.width(pty))
+                    s.setreg(cf, pn, a, g2, s.width(pty), depth=d)
                 res.append((((nm, 0, 0),) + ctrl, g2))
             else:
                 s.depth = len(ctrl)
